@@ -1,5 +1,6 @@
 //! Arena-backed halves of C06 / C08 / C16: BumpVec growth (amortised, in place vs. moved), drop accounting across a
 //! reallocation, split_off parts that are independent with respect to the real allocator, shrink_to_fit.
+use crate::check;
 use crate::common::*;
 use bump_scope::alloc::Allocator;
 use bump_scope::settings::BumpAllocatorSettings;
@@ -17,8 +18,8 @@ impl Drop for D {
     fn drop(&mut self) {
         unsafe {
             let i = self.id as usize;
-            assert!(i < 8, "C06: dropped a value that was never created");
-            assert!(DROPS[i] == 0, "C06: value dropped twice");
+            check!(i < 8, "C06: dropped a value that was never created");
+            check!(DROPS[i] == 0, "C06: value dropped twice");
             DROPS[i] = 1;
         }
     }
@@ -36,7 +37,7 @@ where
     let mut bump = core::mem::ManuallyDrop::new(bump);
     set_budget(0);
     let Ok(mut v) = BumpVec::<u8, _>::try_with_capacity_in(CAP0, &*bump) else { return };
-    assert!(v.capacity() >= CAP0, "C08: capacity smaller than with_capacity promised");
+    check!(v.capacity() >= CAP0, "C08: capacity smaller than with_capacity promised");
     let vals: [u8; 4] = kani::any();
     let p0 = v.as_ptr() as usize;
     // fill to capacity (CAP0 <= 3): no reallocation while the promise suffices
@@ -45,8 +46,8 @@ where
     let mut k = 0;
     while k < 3 {
         if k < CAP0 {
-            assert!(v.try_push(vals[k]).is_ok(), "C08: push within capacity failed");
-            assert!(v.as_ptr() as usize == p0, "C08: buffer moved although the reserved capacity suffices");
+            check!(v.try_push(vals[k]).is_ok(), "C08: push within capacity failed");
+            check!(v.as_ptr() as usize == p0, "C08: buffer moved although the reserved capacity suffices");
         }
         k += 1;
     }
@@ -61,20 +62,20 @@ where
     kani::cover!(r.is_err(), "[fail] growth failed");
     match r {
         Ok(()) => {
-            assert!(v.len() == CAP0 + 1 && v.capacity() >= v.len(), "C08: len/capacity after growth");
+            check!(v.len() == CAP0 + 1 && v.capacity() >= v.len(), "C08: len/capacity after growth");
             // amortised: capacity at least doubles (or reaches the minimum non-zero capacity)
-            assert!(v.capacity() >= 2 * CAP0, "C08: growth is not amortised");
+            check!(v.capacity() >= 2 * CAP0, "C08: growth is not amortised");
             let mut k = 0;
             while k < 3 {
                 if k < CAP0 {
-                    assert!(v[k] == vals[k], "C08/C02: growth lost or changed an element");
+                    check!(v[k] == vals[k], "C08/C02: growth lost or changed an element");
                 }
                 k += 1;
             }
-            assert!(v[CAP0] == vals[3], "C08: pushed element differs");
+            check!(v[CAP0] == vals[3], "C08: pushed element differs");
         }
         Err(_) => {
-            assert!(v.len() == CAP0 && v.as_ptr() as usize == p0, "C07: failed push changed the vector");
+            check!(v.len() == CAP0 && v.as_ptr() as usize == p0, "C07: failed push changed the vector");
         }
     }
     core::mem::forget(v);
@@ -94,8 +95,8 @@ where
     let Ok(mut v) = BumpVec::<D, _>::try_with_capacity_in(2, &*bump) else { return };
     kani::assume(v.capacity() == 2);
     let vals: [u8; 3] = kani::any();
-    assert!(v.try_push(D { id: 0, val: vals[0] }).is_ok(), "push within capacity");
-    assert!(v.try_push(D { id: 1, val: vals[1] }).is_ok(), "push within capacity");
+    check!(v.try_push(D { id: 0, val: vals[0] }).is_ok(), "push within capacity");
+    check!(v.try_push(D { id: 1, val: vals[1] }).is_ok(), "push within capacity");
     if FILL_AFTER > 0 {
         let Ok(_) = bump.allocate(Layout::from_size_align(FILL_AFTER, 1).unwrap()) else { return };
     }
@@ -103,23 +104,23 @@ where
     let r = v.try_push(D { id: 2, val: vals[2] });
     set_budget(0);
     unsafe {
-        assert!(DROPS[0] == 0 && DROPS[1] == 0, "C06: growth dropped elements that were moved");
+        check!(DROPS[0] == 0 && DROPS[1] == 0, "C06: growth dropped elements that were moved");
     }
     match r {
         Ok(()) => {
-            assert!(v.len() == 3 && v[0].val == vals[0] && v[1].val == vals[1] && v[2].val == vals[2] && v[0].id == 0 && v[1].id == 1 && v[2].id == 2, "C08: contents after growth");
+            check!(v.len() == 3 && v[0].val == vals[0] && v[1].val == vals[1] && v[2].val == vals[2] && v[0].id == 0 && v[1].id == 1 && v[2].id == 2, "C08: contents after growth");
             unsafe { assert!(DROPS[2] == 0, "C06: pushed element dropped") };
         }
         Err(_) => {
             // the rejected value was consumed by the failed call
             unsafe { assert!(DROPS[2] == 1, "C06: value of a failed push lost or dropped twice") };
-            assert!(v.len() == 2, "C07: failed push changed the length");
+            check!(v.len() == 2, "C07: failed push changed the length");
         }
     }
     kani::cover!(r.is_ok(), "grew");
     drop(v);
     unsafe {
-        assert!(DROPS[0] == 1 && DROPS[1] == 1 && DROPS[2] == 1, "C06: elements not dropped exactly once after the vector was dropped");
+        check!(DROPS[0] == 1 && DROPS[1] == 1 && DROPS[2] == 1, "C06: elements not dropped exactly once after the vector was dropped");
     }
     kani::cover!(true, "END: harness ran to completion");
 }
@@ -139,7 +140,7 @@ where
     let vals: [u8; 4] = kani::any();
     let mut k = 0;
     while k < 4 {
-        assert!(v.try_push(vals[k]).is_ok(), "push within capacity");
+        check!(v.try_push(vals[k]).is_ok(), "push within capacity");
         k += 1;
     }
     let at: usize = kani::any();
@@ -148,19 +149,19 @@ where
     // `other` is the split-off part, `v` keeps the rest; both claim parts of one allocation
     let mut other = if front { v.split_off(..at) } else { v.split_off(at..) };
     let (lo, hi) = if front { (&other, &v) } else { (&v, &other) };
-    assert!(lo.len() == at && hi.len() == 4 - at, "C16: split_off lengths");
-    assert!(lo.capacity() + hi.capacity() == 6, "C16: capacities of the parts do not add up");
+    check!(lo.len() == at && hi.len() == 4 - at, "C16: split_off lengths");
+    check!(lo.capacity() + hi.capacity() == 6, "C16: capacities of the parts do not add up");
     let mut k = 0;
     while k < 4 {
         if k < at {
-            assert!(lo[k] == vals[k], "C16: front part differs");
+            check!(lo[k] == vals[k], "C16: front part differs");
         } else {
-            assert!(hi[k - at] == vals[k], "C16: back part differs");
+            check!(hi[k - at] == vals[k], "C16: back part differs");
         }
         k += 1;
     }
     let (pl, ph) = (lo.as_ptr() as usize, hi.as_ptr() as usize);
-    assert!(pl + lo.capacity() <= ph || lo.capacity() == 0 || hi.capacity() == 0, "C16: capacity ranges of the parts overlap");
+    check!(pl + lo.capacity() <= ph || lo.capacity() == 0 || hi.capacity() == 0, "C16: capacity ranges of the parts overlap");
     // one follow-up on `other`; `v` must keep its contents
     let keep_len = v.len();
     let keep_first = if keep_len > 0 { v[0] } else { 0 };
@@ -185,14 +186,14 @@ where
     set_budget(0);
     kani::cover!(op == 0 && at == 2, "pushed into one half");
     kani::cover!(op == 1 && at == 1 && !front, "shrink_to_fit of the newest part");
-    assert!(v.len() == keep_len, "C16: operating on one part changed the length of the other");
+    check!(v.len() == keep_len, "C16: operating on one part changed the length of the other");
     if keep_len > 0 {
-        assert!(v[0] == keep_first && v[keep_len - 1] == keep_last, "C16: operating on one part changed the contents of the other");
+        check!(v[0] == keep_first && v[keep_len - 1] == keep_last, "C16: operating on one part changed the contents of the other");
     }
     // and the sibling can still be used
     let r = v.try_push(0x5A);
     if r.is_ok() {
-        assert!(v[keep_len] == 0x5A && (keep_len == 0 || v[0] == keep_first), "C16: sibling unusable after the follow-up");
+        check!(v[keep_len] == 0x5A && (keep_len == 0 || v[0] == keep_first), "C16: sibling unusable after the follow-up");
     }
     core::mem::forget(other);
     core::mem::forget(v);
@@ -210,7 +211,7 @@ fn vec_reserve_any() {
     let mut bump = core::mem::ManuallyDrop::new(bump);
     set_budget(0);
     let Ok(mut v) = BumpVec::<u16, _>::try_with_capacity_in(1, &*bump) else { return };
-    assert!(v.try_push(7).is_ok(), "push");
+    check!(v.try_push(7).is_ok(), "push");
     let additional: usize = kani::any();
     let exact: bool = kani::any();
     let cap0 = v.capacity();
@@ -219,12 +220,12 @@ fn vec_reserve_any() {
     kani::cover!(r.is_err() && additional > (isize::MAX as usize), "overflowing reserve refused");
     match r {
         Ok(()) => {
-            assert!(v.capacity() >= 1 + additional, "C08: capacity smaller than reserve promised");
-            assert!(v.capacity() >= v.len(), "C08: capacity < len");
+            check!(v.capacity() >= 1 + additional, "C08: capacity smaller than reserve promised");
+            check!(v.capacity() >= v.len(), "C08: capacity < len");
         }
-        Err(_) => assert!(v.capacity() == cap0, "C07: failed reserve changed the capacity"),
+        Err(_) => check!(v.capacity() == cap0, "C07: failed reserve changed the capacity"),
     }
-    assert!(v.len() == 1 && v[0] == 7, "C07/C08: reserve changed the contents");
+    check!(v.len() == 1 && v[0] == 7, "C07/C08: reserve changed the contents");
     core::mem::forget(v);
     kani::cover!(true, "END: harness ran to completion");
 }
@@ -249,7 +250,7 @@ where
     let mut k = 0;
     while k < 3 {
         if k < n {
-            assert!(v.try_push(vals[k]).is_ok(), "push within capacity");
+            check!(v.try_push(vals[k]).is_ok(), "push within capacity");
         }
         k += 1;
     }
@@ -258,7 +259,7 @@ where
     let (p, len) = match op {
         0 => {
             v.shrink_to_fit();
-            assert!(v.capacity() >= v.len(), "C08: capacity < len after shrink_to_fit");
+            check!(v.capacity() >= v.len(), "C08: capacity < len after shrink_to_fit");
             let r = (v.as_ptr() as usize, v.len());
             core::mem::forget(v);
             r
@@ -266,7 +267,7 @@ where
         1 => {
             let m: usize = kani::any();
             v.shrink_to(m);
-            assert!(v.capacity() >= v.len() && (v.capacity() >= m || v.capacity() >= cap0.min(m)), "C08: capacity after shrink_to");
+            check!(v.capacity() >= v.len() && (v.capacity() >= m || v.capacity() >= cap0.min(m)), "C08: capacity after shrink_to");
             let r = (v.as_ptr() as usize, v.len());
             core::mem::forget(v);
             r
@@ -278,18 +279,18 @@ where
             r
         }
     };
-    assert!(len == n, "C08: shrinking changed the length");
+    check!(len == n, "C08: shrinking changed the length");
     let cur = bump.stats().current_chunk().unwrap();
-    assert!(addr(cur.bump_position()) % St::MIN_ALIGN == 0, "C10: bump position is not a multiple of the minimum alignment after shrinking a vector");
+    check!(addr(cur.bump_position()) % St::MIN_ALIGN == 0, "C10: bump position is not a multiple of the minimum alignment after shrinking a vector");
     kani::cover!(op == 0 && n == 2 && cap0 == 7, "shrink_to_fit 7 -> 2");
     let w = Win::of(cur);
     if n > 0 {
-        assert!(unsafe { w.read(p) } == vals[0] && unsafe { w.read(p + n - 1) } == vals[n - 1], "C02/C08: shrinking changed the contents");
+        check!(unsafe { w.read(p) } == vals[0] && unsafe { w.read(p + n - 1) } == vals[n - 1], "C02/C08: shrinking changed the contents");
     }
     // the next allocation is aligned to MIN_ALIGN-or-better and disjoint from the vector's elements
     if let Ok(q) = bump.try_alloc_uninit::<u8>() {
         let q = q.into_raw().as_ptr() as usize;
-        assert!(disjoint(q, 1, p, n), "C01: allocation after shrinking overlaps the vector's elements");
+        check!(disjoint(q, 1, p, n), "C01: allocation after shrinking overlaps the vector's elements");
     }
     kani::cover!(true, "END: harness ran to completion");
 }
